@@ -9,9 +9,13 @@ run): the lists of `ValidateImmutableField` calls, the numeric bounds, the guard
 
 Named hypotheses (envelopes):
   `ParseHashIndependent P`  the cron library's verdict on a line does not depend on the hash id.
-                            FALSE for cronexpr v0.1.3 (finding F-C17-1, replayed on the real code by the
-                            corpus scenario f-c17-1-hash-dependent-parse): without it the clause fails,
-                            see `accepted_not_loadable_witness`.
+                            FALSE for cronexpr v0.1.3 (finding F-C17-1).  Since fix d9dad79 the validator
+                            re-parses the schedule with the JobConfig's namespaced name
+                            (`Facts.valJobConfigScheduleRecheck`), so `accepted_loadable` no longer needs it
+                            for a JobConfig admitted with a non-empty name; it is still needed for an
+                            object admitted with an empty name (generateName), see
+                            `accepted_not_loadable_unnamed_witness`; `f_c17_1_regression` shows the old
+                            witness is now rejected.
   `DefaultTzValid E`        the timezone the scheduler falls back to (dynamic configuration, else "UTC")
                             parses.  Without it the clause fails (finding F-C17-2),
                             see `accepted_not_loadable_default_tz_witness`.
@@ -35,10 +39,22 @@ abbrev Accepted (E : Env) (jc : JobConfig) : Prop := validateJobConfig E jc = so
 
 /-! ## 1. accepted ⇒ loadable -/
 
-/-- Every accepted JobConfig is parsed without error by `Schedule.parseCronAndTimezone` (it is either
-scheduled or skipped as disabled / without cron schedule). -/
-theorem accepted_parses (E : Env) (jc : JobConfig)
-    (hP : ParseHashIndependent E.P) (hTz : DefaultTzValid E) (h : Accepted E jc) :
+/-- the timezone half shared by both versions below -/
+theorem accepted_timezone_ok (E : Env) (c : CronSchedule) (hTz : DefaultTzValid E)
+    (acc : CronAccepted E c) : E.parseTz (getTimezone c E.cfg) = true := by
+  by_cases hz : c.timezone = ""
+  · have : getTimezone c E.cfg = effectiveDefaultTz E.cfg := by
+      unfold effectiveDefaultTz getTimezone
+      simp [hz]
+    rw [this]; exact hTz
+  · have : getTimezone c E.cfg = c.timezone := by unfold getTimezone; simp [hz]
+    rw [this]; exact acc.tz hz
+
+/-- common skeleton: an accepted JobConfig parses on the scheduler side as soon as its cron lines parse
+with the scheduler's hash id -/
+theorem accepted_parses_of (E : Env) (jc : JobConfig) (hTz : DefaultTzValid E) (h : Accepted E jc)
+    (hexpr : ∀ s c, jc.schedule = some s → s.cron = some c → CronAccepted E c →
+      newExpression E.P (newParserFromConfig E.cfg) jc.key (getExpressions c) = .ok) :
     parseCronAndTimezone E jc = .ok ∨ parseCronAndTimezone E jc = .skip := by
   obtain ⟨_, _, _, _, hs, _⟩ := validateJobConfig_some_nil E jc h
   unfold parseCronAndTimezone
@@ -56,36 +72,49 @@ theorem accepted_parses (E : Env) (jc : JobConfig)
         rw [hsch] at hs
         simp only [validateScheduleSpec, hc] at hs
         have acc := validateCronSchedule_nil E c _ hs
-        have hexpr : newExpression E.P (newParserFromConfig E.cfg) jc.key (getExpressions c) = .ok := by
-          apply newExpression_ok
-          intro l hl
-          rw [parse_hash_irrelevant E.P hP _ l jc.key Facts.valCronHashID]
-          exact acc.lines l (getExpressions_subset c l hl)
-        simp only [Bool.false_eq_true, ↓reduceIte, hexpr]
-        have htz : E.parseTz (getTimezone c E.cfg) = true := by
-          by_cases hz : c.timezone = ""
-          · have : getTimezone c E.cfg = effectiveDefaultTz E.cfg := by
-              unfold effectiveDefaultTz getTimezone
-              simp [hz]
-            rw [this]; exact hTz
-          · have : getTimezone c E.cfg = c.timezone := by unfold getTimezone; simp [hz]
-            rw [this]; exact acc.tz hz
-        simp [htz]
+        simp only [Bool.false_eq_true, ↓reduceIte, hexpr s c hsch hc acc, accepted_timezone_ok E c hTz acc]
 
-/-- `accepted_loadable`: `validateJobConfig cfg jc = ok → scheduleLoad cfg [jc] ≠ error` (in fact `= ok`). -/
-theorem accepted_loadable (E : Env) (jc : JobConfig)
+/-- Every JobConfig accepted under a non-empty name is parsed without error by
+`Schedule.parseCronAndTimezone` (it is either scheduled or skipped as disabled / without cron schedule) —
+WITHOUT any assumption on the cron library: the validator itself parsed the lines with the scheduler's
+hash id (fix d9dad79). -/
+theorem accepted_parses (E : Env) (jc : JobConfig) (hname : jc.name ≠ "")
+    (hTz : DefaultTzValid E) (h : Accepted E jc) :
+    parseCronAndTimezone E jc = .ok ∨ parseCronAndTimezone E jc = .skip :=
+  accepted_parses_of E jc hTz h fun s c hs hc _ =>
+    recheck_newExpression_ok E jc s c hs hc hname (validateJobConfig_recheck E jc (by decide) h)
+
+/-- the version for any name (also the empty one of generateName), under the library contract -/
+theorem accepted_parses_of_hash_independent (E : Env) (jc : JobConfig)
     (hP : ParseHashIndependent E.P) (hTz : DefaultTzValid E) (h : Accepted E jc) :
+    parseCronAndTimezone E jc = .ok ∨ parseCronAndTimezone E jc = .skip :=
+  accepted_parses_of E jc hTz h fun _ c _ _ acc => by
+    apply newExpression_ok
+    intro l hl
+    rw [parse_hash_irrelevant E.P hP _ l jc.key Facts.valCronHashID]
+    exact acc.lines l (getExpressions_subset c l hl)
+
+/-- `accepted_loadable`: `validateJobConfig cfg jc = ok → scheduleLoad cfg [jc] ≠ error` (in fact `= ok`),
+for every JobConfig admitted under a non-empty name. -/
+theorem accepted_loadable (E : Env) (jc : JobConfig) (hname : jc.name ≠ "")
+    (hTz : DefaultTzValid E) (h : Accepted E jc) :
     scheduleLoad E [jc] = .ok :=
   (scheduleLoad_ok_iff E [jc]).mpr (by
     intro x hx
     rw [List.mem_singleton.mp hx]
-    exact accepted_parses E jc hP hTz h)
+    exact accepted_parses E jc hname hTz h)
 
-/-- … and any set of accepted JobConfigs loads together (`cronschedule.New` on the whole cache). -/
+/-- … and any set of accepted, named JobConfigs loads together (`cronschedule.New` on the whole cache). -/
 theorem accepted_loadable_all (E : Env) (jcs : List JobConfig)
+    (hTz : DefaultTzValid E) (h : ∀ jc ∈ jcs, jc.name ≠ "" ∧ Accepted E jc) :
+    scheduleLoad E jcs = .ok :=
+  (scheduleLoad_ok_iff E jcs).mpr fun jc hjc => accepted_parses E jc (h jc hjc).1 hTz (h jc hjc).2
+
+/-- the old statement (any names, under `ParseHashIndependent`) -/
+theorem accepted_loadable_all_of_hash_independent (E : Env) (jcs : List JobConfig)
     (hP : ParseHashIndependent E.P) (hTz : DefaultTzValid E) (h : ∀ jc ∈ jcs, Accepted E jc) :
     scheduleLoad E jcs = .ok :=
-  (scheduleLoad_ok_iff E jcs).mpr fun jc hjc => accepted_parses E jc hP hTz (h jc hjc)
+  (scheduleLoad_ok_iff E jcs).mpr fun jc hjc => accepted_parses_of_hash_independent E jc hP hTz (h jc hjc)
 
 /-- `one_bad_aborts_all`: `cronschedule.New` fails as soon as one element fails — whatever the others are
 (which is why `accepted_loadable` matters: one object would wedge scheduling for everyone). -/
@@ -114,7 +143,7 @@ def wJC (ns name line tz : String) : JobConfig :=
 /-- a library whose verdict on `0 0 H/5 * *` depends on the hash id, as cronexpr v0.1.3 does
 (`H/5` in day-of-month: offset `hash mod 5`, rejected when it is 0 because days start at 1) -/
 def wHashDependent : ParseFn := fun _ id line =>
-  if line = "0 0 H/5 * *" then (if id = some "default/b" then .err else .ok) else .ok
+  if line = "0 0 H/5 * *" then (if id = some "default/b" ∨ id = some "default/" then .err else .ok) else .ok
 
 def wEnv (P : ParseFn) (cfg : CronCfg) (tzOk : String → Bool) : Env :=
   { cfg := cfg, P := P, parseTz := tzOk,
@@ -124,14 +153,27 @@ def wE1 : Env := wEnv wHashDependent {} (fun _ => true)
 def wGood1 : JobConfig := wJC "default" "a" "0 * * * *" ""
 def wGood2 : JobConfig := wJC "prod" "report" "0 0 H/5 * *" ""
 def wBad : JobConfig := wJC "default" "b" "0 0 H/5 * *" ""
+/-- the same object as it reaches admission with `generateName: b-` (no name yet) -/
+def wUnnamed : JobConfig := wJC "default" "" "0 0 H/5 * *" ""
 
-/-- F-C17-1: without `ParseHashIndependent`, `accepted_loadable` is false: the validator (hash id "")
-admits `default/b`, the scheduler (hash id `default/b`) cannot parse it, and the load of two perfectly
-fine JobConfigs together with it fails. -/
-theorem accepted_not_loadable_witness :
-    Accepted wE1 wGood1 ∧ Accepted wE1 wGood2 ∧ Accepted wE1 wBad ∧ DefaultTzValid wE1 ∧
-    scheduleLoad wE1 [wGood1, wGood2] = .ok ∧
-    scheduleLoad wE1 [wBad] = .error ∧ scheduleLoad wE1 [wGood1, wGood2, wBad] = .error := by
+/-- F-C17-1, regression (fixed by d9dad79): the former witness — `default/b`, which the validator's parse
+with hash id "" accepts and the scheduler's parse with `default/b` refuses — is now REJECTED by the
+validator, at `spec.schedule.cron`, also when its schedule is disabled; the same line under a name for
+which it parses is still admitted and loads. -/
+theorem f_c17_1_regression :
+    validateJobConfig wE1 wBad = some [⟨"spec.schedule.cron", .invalid⟩] ∧
+    validateJobConfig wE1 { wBad with schedule := wBad.schedule.map fun s => { s with disabled := true } } =
+      some [⟨"spec.schedule.cron", .invalid⟩] ∧
+    Accepted wE1 wGood1 ∧ Accepted wE1 wGood2 ∧ scheduleLoad wE1 [wGood1, wGood2] = .ok ∧
+    scheduleLoad wE1 [wGood1, wGood2, wBad] = .error := by
+  decide
+
+/-- What remains of F-C17-1: an object admitted with an empty name (generateName).  The scheduler-style
+parse is skipped for it (the final name is not known at admission), so without `ParseHashIndependent`
+the clause is still false there. -/
+theorem accepted_not_loadable_unnamed_witness :
+    wUnnamed.name = "" ∧ Accepted wE1 wUnnamed ∧ DefaultTzValid wE1 ∧
+    scheduleLoad wE1 [wUnnamed] = .error ∧ scheduleLoad wE1 [wGood1, wGood2, wUnnamed] = .error := by
   decide
 
 def wE2 : Env :=
@@ -427,6 +469,13 @@ theorem killTimestamp_locked_after (old new : Job) (k : Int) (now : Int)
 /-- the validator parses with the empty hash id -/
 theorem fact_validator_hash_id : Facts.valCronHashID = "" := by decide
 
+/-- … and, when nothing else was rejected, once more the way the scheduler will (fix d9dad79): the call is
+there, skipped exactly as modelled, and uses the scheduler's hash id -/
+theorem fact_schedule_recheck :
+    Facts.valJobConfigScheduleRecheck = true ∧
+    Facts.valScheduleRecheckSkipGuard = "schedule == nil || schedule.Cron == nil || rjc.Name == \"\"" ∧
+    Facts.valScheduleRecheckHashID = "cache.MetaNamespaceKeyFunc(rjc)" := by decide
+
 /-- every field the property lists is declared immutable in the source -/
 theorem fact_immutable_lists :
     (Facts.valJobSpecImmutable.map (·.1)) = ["ConfigName", "Type", "OptionValues", "Substitutions"] ∧
@@ -466,9 +515,17 @@ def exJC : JobConfig :=
 example : ParseHashIndependent exEnv.P ∧ DefaultTzValid exEnv ∧ Accepted exEnv exJC :=
   ⟨fun _ _ _ _ => rfl, by decide, by decide⟩
 
-/-- accepted_parses / accepted_loadable / accepted_loadable_all -/
-example : scheduleLoad exEnv [exJC, wJC "prod" "x" "H H * * *" ""] = .ok :=
-  accepted_loadable_all exEnv _ (fun _ _ _ _ => rfl) (by decide) (by
+/-- accepted_parses / accepted_loadable / accepted_loadable_all — with a library whose verdicts DO depend
+on the hash id (`wHashDependent`): no contract on the library is needed for named JobConfigs -/
+example : scheduleLoad wE1 [exJC, wGood2] = .ok :=
+  accepted_loadable_all wE1 _ (by decide) (by
+    intro jc hjc
+    simp only [List.mem_cons, List.not_mem_nil, or_false] at hjc
+    rcases hjc with rfl | rfl <;> exact ⟨by decide, by decide⟩)
+
+/-- accepted_parses_of_hash_independent / accepted_loadable_all_of_hash_independent: an unnamed object -/
+example : scheduleLoad exEnv [wUnnamed, exJC] = .ok :=
+  accepted_loadable_all_of_hash_independent exEnv _ (fun _ _ _ _ => rfl) (by decide) (by
     intro jc hjc
     simp only [List.mem_cons, List.not_mem_nil, or_false] at hjc
     rcases hjc with rfl | rfl <;> decide)
